@@ -152,7 +152,11 @@ def main(argv):
             if ob.get('props') is None or prop in ob['props']:
                 undecided.append({'unit': unit, 'reason': 'solver gave up (rlimit) on ' + ob['id']})
         for ob in res.get('failures', []):
-            if ob.get('props') is not None and prop not in ob['props']:
+            # a failed obligation counts for this property if its function is tagged with it, or if the function belongs to
+            # an imported (foundation) unit: every proof in this unit stands on those contracts
+            is_alloc = 'alloc_ok' in ob.get('clause', '') or 'ALLOC_COUNT_MAX' in ob.get('clause', '')
+            foundation = bool(ob.get('imported')) and not is_alloc
+            if ob.get('props') is not None and prop not in ob['props'] and not foundation:
                 continue
             k = next((k for k in known if k.get('status') == 'finding' and ob['id'].startswith(k['obligation'])), None)
             if k:
